@@ -39,6 +39,28 @@ sites! {
     9, DEBUG, "a"; 10, DEBUG, "a::b"; 11, DEBUG, "c";
     12, TRACE, "a"; 13, TRACE, "a::b"; 14, TRACE, "c";
 }
+/// callsite (cs * 2 + is_span) a collector should re-emit from inside register_callsite; -1 = none
+static ARMED: std::sync::atomic::AtomicI64 = std::sync::atomic::AtomicI64::new(-1);
+static CONSUMED: std::sync::atomic::AtomicBool = std::sync::atomic::AtomicBool::new(false);
+fn install_register_hook() {
+    *vp_rec::REGISTER_HOOK.lock().unwrap() = Some(Arc::new(|m: &'static tracing_core::Metadata<'static>| {
+        let a = ARMED.load(Ordering::SeqCst);
+        if a < 0 {
+            return;
+        }
+        let (cs, span) = ((a / 2) as u8, a % 2 == 1);
+        if m.is_span() == span && !m.is_event() == span && vp_rec::rank(m.level()) == cs_level(cs) && m.target() == cs_target(cs) && (m.is_span() || m.is_event()) {
+            if ARMED.compare_exchange(a, -1, Ordering::SeqCst, Ordering::SeqCst).is_ok() {
+                CONSUMED.store(true, Ordering::SeqCst);
+                if span {
+                    drop(make_span(cs));
+                } else {
+                    emit_event(cs);
+                }
+            }
+        }
+    }));
+}
 fn cs_level(cs: u8) -> u8 {
     cs / 3 + 1
 }
@@ -55,7 +77,9 @@ enum Op {
     Install { t: u8, c: u8 },
     Uninstall { t: u8 },
     SetGlobal { t: u8, c: u8 },
-    Emit { t: u8, cs: u8, span: bool },
+    /// `reenter`: the first collector asked to register this callsite emits the same callsite
+    /// again from inside its `register_callsite` callback (same thread, same current collector)
+    Emit { t: u8, cs: u8, span: bool, #[serde(default)] reenter: bool },
     Probe { t: u8, cs: u8 },
     Rebuild { t: u8 },
     /// toggle the runtime flag a dynamic filter consults
@@ -90,6 +114,7 @@ struct Inst {
 }
 
 fn run_case(case: &Case) -> Outcome {
+    install_register_hook();
     let mut st: Stepper<TState> = Stepper::new(NT);
     let mut insts: Vec<Inst> = vec![];
     let mut slots: [Option<usize>; NSLOT] = [None; NSLOT];
@@ -176,8 +201,10 @@ fn run_case(case: &Case) -> Outcome {
                     classes.push("global_default".into());
                 }
             }
-            Op::Emit { t, cs, span } => {
+            Op::Emit { t, cs, span, reenter } => {
                 let (t, cs, span) = (*t as usize % NT, *cs % 15, *span);
+                CONSUMED.store(false, Ordering::SeqCst);
+                ARMED.store(if *reenter { cs as i64 * 2 + span as i64 } else { -1 }, Ordering::SeqCst);
                 let r = st.run(t, move |_| {
                     if span {
                         let s = make_span(cs);
@@ -193,10 +220,15 @@ fn run_case(case: &Case) -> Outcome {
                     Ok(d) => d,
                     Err(e) => fail!(i, "panic: emit", "{e}"),
                 };
+                ARMED.store(-1, Ordering::SeqCst);
+                let reentered = CONSUMED.swap(false, Ordering::SeqCst);
+                if reentered {
+                    classes.push("emission_from_inside_register_callsite".into());
+                }
                 let recv = stacks[t].last().copied().or(global);
                 let accepts = |k: usize| insts[k].spec.accepts(cs_level(cs), cs_target(cs), insts[k].flag);
                 let expect: Vec<(usize, usize)> = match recv {
-                    Some(k) if accepts(k) => vec![(k, 1)],
+                    Some(k) if accepts(k) => vec![(k, 1 + reentered as usize)],
                     _ => vec![],
                 };
                 let want_kind = if span { Kind::NewSpan } else { Kind::Event };
@@ -224,8 +256,8 @@ fn run_case(case: &Case) -> Outcome {
                         } else {
                             format!("{kind} delivered to a collector that is not the thread's current one")
                         }
-                    } else if got.is_empty() {
-                        format!("{kind} suppressed although the collector's filter accepts it{}", if first { " (first hit)" } else { "" })
+                    } else if got.is_empty() || (reentered && got.len() == 1 && got[0].1 == 1 && expect.len() == 1 && got[0].0 == expect[0].0) {
+                        format!("{kind} suppressed although the collector's filter accepts it{}{}", if first { " (first hit)" } else { "" }, if reentered { " (emitted while the callsite was registering)" } else { "" })
                     } else {
                         format!("{kind} delivered wrongly (count or receiver)")
                     };
@@ -358,7 +390,7 @@ impl Property for C01 {
             2 => t.clone().prop_map(|t| Op::Uninstall { t }),
             1 => (t.clone(), c.clone()).prop_map(|(t, c)| Op::SetGlobal { t, c }),
             // emissions concentrate on few callsites so that the same one is hit repeatedly
-            10 => (t.clone(), prop_oneof![3 => 0u8..15, 5 => proptest::sample::select(vec![6u8, 7, 10, 2])], any::<bool>()).prop_map(|(t, cs, span)| Op::Emit { t, cs, span }),
+            10 => (t.clone(), prop_oneof![3 => 0u8..15, 5 => proptest::sample::select(vec![6u8, 7, 10, 2])], any::<bool>(), proptest::bool::weighted(0.25)).prop_map(|(t, cs, span, reenter)| Op::Emit { t, cs, span, reenter }),
             2 => (t.clone(), cs).prop_map(|(t, cs)| Op::Probe { t, cs }),
             1 => t.clone().prop_map(|t| Op::Rebuild { t }),
             2 => c.clone().prop_map(|c| Op::Flip { c }),
